@@ -11,6 +11,7 @@ import time
 import numpy as np
 import myokit
 import myokit.formats.cellml
+import myokit.formats.sympy
 import myokit.lib.guess
 
 import common as cm
@@ -21,34 +22,42 @@ import gotranx.myokit as gm
 from . import _c15_mmtgen as mmtgen
 
 ID = "C15"
-RULE = """Models: every distinct *.mmt / *.cellml file under /repo (example.mmt, noble_1962.cellml, ToRORd_dynCl_mid.cellml),
-106 hand-written feature-isolating micro .mmt models (one Myokit operator / naming / nesting / pacing construct each) and
-seeded random .mmt models from oracles/_c15_mmtgen.py (1-3 components + optional engine component, 1-4 states, 1-3
-constants and 0-3 intermediates per component, nested variables up to 3 levels deep, the same local name reused across
-components and across nested scopes, `use c.v as alias`, names that are attributes of the sympy module (beta gamma E I S N
-Q O zeta pi Ci Si re ff), their `_` twins (beta_ next to beta ...), the python keyword `lambda`, if / piecewise with
-state-vs-constant comparisons combined by and/or/not, all Myokit operators incl. // % log10 log(a,b) ceil, numbers with
-units, in/desc/label/bind, time variable named time|t|T, optional `bind pace` + [[protocol]] with or without a labelled
-stimulus current); every text is first parsed and validated by Myokit itself (rejected text = harness error).  The
-reference is Myokit's own model: myokit.load + myokit.lib.guess.add_embedded_protocol on a clone (as mmt_to_gotran is
-documented to do) + create_unique_names; the expected gotranx name of a variable is its uname plus `_` when it is in
-gotranx.myokit.reserved_names.  Checked per model: import succeeds; the gotranx state set equals Myokit's with
-initial_values(); every Number-valued Myokit variable is a parameter with its value (other literal constants may be
-parameters or closed intermediates with that value) and every gotranx parameter is a Myokit constant; after ode.save +
-gotranx.load_ode + numpy code generation the rhs equals Model.evaluate_derivatives(state, inputs={time: t}) of the
-embedded-protocol reference at the initial state and at 4 (quick) / 8 (thorough) states perturbed by 1 +- 5 % and a
-+-1e-3 shift, at times 0, mid-pulse, after the pulse and in the next period (models whose protocol could not be
-embedded by Myokit are compared with pace = its rhs 0), rtol 1e-7 plus 1e-12 x the largest variable magnitude; points
-where Myokit's evaluation is not finite are skipped.  gotran_to_myokit is run on the imported model, on the reloaded
-model and on .ode texts (lorentz / fitzhughnagumo / beeler_reuter_1977 and modelgen models with 1-3 named
-components, units on ScalarParams, features restricted to what Myokit expresses): result validates, same states /
-initial values, same constants / values, same units (myokit.parse_unit of the .ode unit with ** -> ^), and its
-evaluate_derivatives equals the Myokit reference (imported) or the numpy rhs (reloaded / .ode text).  quick: repo
-models + 106 micro + 400 random .mmt + 3 + 120 .ode texts; thorough: 6000 random .mmt, 1500 .ode texts.  One case = one
-(model, point) rhs comparison or one model-level conversion check; non-trivial when the model has an intermediate or
-nested variable and the reference derivative is finite and not identically zero; distinct by sha1(model, point).
-Failing random models are delta-debugged with Myokit (drop variables, replace sub-expressions by their value) and the
-construct sub-kind is read off the shrunk model."""
+RULE = """Models: every distinct *.mmt / *.cellml file under /repo (example.mmt, noble_1962.cellml, ToRORd_dynCl_mid.cellml; the
+latter with 1 point in quick), 120 hand-written feature-isolating micro .mmt models (one Myokit operator / naming / nesting /
+time-variable / pacing construct each) and seeded random .mmt models from oracles/_c15_mmtgen.py: 1-3 components (+ optional
+engine component), 1-4 states, 1-3 constants and 0-3 intermediates per component, nested variables up to 3 levels deep, `use
+c.v as alias`, numbers with units, in / desc / label / bind, if / piecewise / nested if over state-vs-constant comparisons
+(< > <= >= == !=) joined by and / or / not over *different* states (no tautological, contradictory or identical-branch
+conditionals: those are C01's), all Myokit operators incl. // % log10 log(a,b) floor ceil, optional `bind pace` + [[protocol]]
+with or without a labelled stimulus current.  Seeds cycle through 3 profiles: 0 = the same local name reused across components
+and nested scopes, names that are attributes of the sympy module (beta gamma E I S N Q O zeta pi Ci Si re ff), their `_` twins
+(beta_ next to beta), the python keyword `lambda`, time variable named time|t|T; 1 = model-wide unique plain names (so that
+operators are reached); 2 = additionally no ceil / != and positive thresholds only.  Every text is first loaded and validated by
+Myokit itself (rejected text = harness error).  Reference = Myokit's own model: myokit.load, the clone on which
+myokit.lib.guess.add_embedded_protocol embedded the protocol during the import (recorded, because Myokit's stimulus guess is not
+reproducible on a second clone), create_unique_names; the expected gotranx name of a variable is its uname, plus `_` when it is
+in gotranx.myokit.reserved_names.  Checked per model: the import succeeds; naming is injective; the gotranx state set equals
+Myokit's with initial_values(); every Number-valued Myokit variable is a parameter with that value (other literal constants
+may be parameters or closed intermediates with that value) and every gotranx parameter is a Myokit constant; after ode.save +
+gotranx.load_ode + numpy code generation, initial states / parameter values are unchanged and rhs equals
+Model.evaluate_derivatives(state, inputs={time: t}) of the embedded-protocol reference at the initial state (t = 0) and at 4
+(quick) / 8 (thorough) states perturbed by 1 +- 1..5 % plus a +-1e-3 shift, at times mid-pulse, after the pulse and in later
+periods (models without an embeddable protocol are compared with pace = its rhs 0; times 0, 1.7, 13, 250.5), rtol 1e-7 plus
+1e-12 x the largest variable magnitude; points where Myokit's evaluation is not finite or lies within 1e-9 of a discontinuity
+(floor / ceil / // / % at an integer, a comparison of nearly equal computed operands) are skipped.  A wrong derivative is
+localised to the first wrong variable through the generated monitor_values and named after the construct in that variable's
+expression.  gotran_to_myokit is run on the imported model (skipped when the import left undefined names), on the reloaded
+model and on .ode texts (lorentz / fitzhughnagumo / beeler_reuter_1977 and modelgen models, 3 of 4 with every object in 1-3
+components of Myokit-valid name, units on ScalarParams, features restricted to what Myokit expresses): the result validates,
+has the same states / initial values, the same constants / values, the same units (imported: the units of the Myokit original;
+else myokit.parse_unit of the .ode unit with ** -> ^; models with a unit Myokit cannot parse are skipped) and its
+evaluate_derivatives equals the Myokit reference (imported / reloaded) or the independent reference evaluator of modelgen
+(.ode text) at 2 points.  quick: repo models + 3 .ode files + 120 micro + 400 random .mmt + 120 .ode texts (interleaved
+3:2:1); thorough: 6000 random .mmt + 1500 .ode texts.  One case = one (model, point) rhs comparison or one model-level
+conversion step (import, save + reload, export); non-trivial when the model has an intermediate or nested variable and the
+reference derivative is finite and not identically zero; distinct by sha1(model, point).  Failing random models are
+delta-debugged with Myokit (drop the protocol, drop a variable replacing its references by its value, replace a sub-expression
+by its value; never creating a constant condition) while the same signature persists."""
 
 USES_SHRINK = True
 CASE_TIMEOUT = 90
@@ -79,24 +88,27 @@ def cases(tier, seed, focus):
     quick = tier == "quick"
     npts = 4 if quick else 8
     tags = T_IMPORT + T_RHS + T_BACK
+    # a focus on the import / reload stage stops each model after that stage (more models within the budget)
+    stage = max([k for k, ts in ((2, T_IMPORT), (3, T_RHS), (4, T_BACK)) if any(cm.focus_match(t, focus) for t in ts)] or [4])
+    extra = {"_stage": stage} if stage < 4 else {}
     for p in repo_models():
         big = os.path.getsize(p) > 200000
-        yield {"repo": p, "npts": 1 if big and quick else npts, "pseed": seed, "tags": tags}
+        yield dict({"repo": p, "npts": 1 if big and quick else npts, "pseed": seed, "tags": tags}, **extra)
     for f in ODE_FILES:
         yield {"ode_file": f, "tags": T_BACK}
-    micro = [{"micro": k, "npts": npts, "pseed": seed, "tags": tags} for k in mmtgen.MICRO]
+    micro = [dict({"micro": k, "npts": npts, "pseed": seed, "tags": T_RHS + T_BACK if k.startswith("op-") else tags}, **extra) for k in mmtgen.MICRO]
     n_mmt, n_ode = (400, 120) if quick else (6000, 1500)
-    gen = [{"gseed": seed * 100003 + i, "npts": npts, "pseed": seed, "tags": tags} for i in range(n_mmt)]
+    gen = [dict({"gseed": seed * 100003 + i, "npts": npts, "pseed": seed, "tags": tags}, **extra) for i in range(n_mmt)]
     odes = [{"mseed": seed * 100003 + i, "tags": T_BACK} for i in range(n_ode)]
-    # interleave: 2 micro, 3 random, 1 .ode text ...
-    its = [iter(micro), iter(micro), iter(gen), iter(gen), iter(gen), iter(odes)]
-    live = list(its)
+    # interleave 3 micro : 2 random : 1 .ode text, so that the cheap diagnostic micro models are all done early
+    im, ig, io = iter(micro), iter(gen), iter(odes)
+    live = [im, im, im, ig, ig, io]
     while live:
         for it in list(live):
             try:
                 yield next(it)
             except StopIteration:
-                live.remove(it)
+                live = [x for x in live if x is not it]
 
 
 # --------------------------------------------------------------------------------------
@@ -107,18 +119,41 @@ def expected_name(v):
     return n + "_" if n in gm.reserved_names else n
 
 
+class Embedding:
+    """records (a clone of) the model that myokit.lib.guess.add_embedded_protocol produced while gotranx imported a file.
+    Myokit's stimulus guess breaks ties in an order that differs between two clones of one model, so the reference must be
+    the very embedding gotranx was given, not a second one"""
+
+    def __enter__(self):
+        self.got, self.orig = [], myokit.lib.guess.add_embedded_protocol
+
+        def wrapped(model, protocol, *a, **k):
+            ok = self.orig(model, protocol, *a, **k)
+            self.got.append((model.clone(), bool(ok)))
+            return ok
+
+        myokit.lib.guess.add_embedded_protocol = wrapped
+        return self
+
+    def __exit__(self, *a):
+        myokit.lib.guess.add_embedded_protocol = self.orig
+
+
 class Ref:
     """Myokit's own reading of the file: protocol embedded on a clone (myokit.lib.guess), unique names"""
 
-    def __init__(self, path, kind):
+    def __init__(self, path, kind, embedding=()):
         self.embedded, self.protocol = False, None
         with cm.quiet():
             if kind == "mmt":
                 model, protocol, _ = myokit.load(path)
                 model.validate()
                 if protocol is not None:
-                    model = model.clone()
-                    self.embedded = bool(myokit.lib.guess.add_embedded_protocol(model, protocol))
+                    if embedding:
+                        model, self.embedded = embedding[-1]
+                    else:
+                        model = model.clone()
+                        self.embedded = bool(myokit.lib.guess.add_embedded_protocol(model, protocol))
                     self.protocol = protocol
             else:
                 model = myokit.formats.cellml.CellMLImporter().model(path)
@@ -139,8 +174,11 @@ class Ref:
         """(variable, value, is_number) of every literal constant"""
         out = []
         for v in self.vars:
-            if not v.is_state() and v.rhs().is_literal():  # includes bound variables (pace, diffusion_current) with a literal rhs
-                out.append((v, float(v.rhs().eval()), isinstance(v.rhs(), myokit.Number)))
+            if not v.is_state() and v.rhs().is_literal() and not self.fragile(None, only=v.rhs()):  # incl. bound variables (pace) with a literal rhs
+                try:
+                    out.append((v, float(v.rhs().eval()), isinstance(v.rhs(), myokit.Number)))
+                except Exception:  # noqa: BLE001 - 1 / 0 and the like
+                    pass
         return out
 
     def nontrivial_model(self):
@@ -156,7 +194,8 @@ class Ref:
         return pts
 
     def eval(self, pt):
-        """(derivatives by state qname | None, magnitude of the largest variable)"""
+        """None (Myokit's evaluation is not finite, or the point is within 1e-9 of a discontinuity) or
+        (derivatives by state qname, magnitude of the largest variable, values by Myokit lhs)"""
         m = self.model
         state = [float(pt["states"][s.qname()]) for s in self.states]
         try:
@@ -172,23 +211,77 @@ class Ref:
                                 vals[eq.lhs] = eq.rhs.eval(vals)
                             except Exception:  # noqa: BLE001
                                 vals[eq.lhs] = float("nan")
+                want = [float(w) for w in want]
+                mags = [abs(float(x)) for x in vals.values()]
+                if not all(math.isfinite(x) for x in want + mags) or self.fragile(vals):
+                    return None
         except Exception:  # noqa: BLE001
-            return None, 0.0
-        want = [float(w) for w in want]
-        if not all(math.isfinite(w) for w in want):
-            return None, 0.0
-        mags = [abs(float(x)) for x in vals.values()]
-        if not all(math.isfinite(x) for x in mags):
-            return None, 0.0
-        return {s.qname(): w for s, w in zip(self.states, want)}, max(mags + [1.0])
+            return None
+        return {s.qname(): w for s, w in zip(self.states, want)}, max(mags + [1.0]), vals
+
+    def fragile(self, vals, only=None):
+        """a comparison with (nearly) equal operands that are not both plain names / numbers, or floor / ceil / // / %
+        at (nearly) an integer: rounding may legitimately select the other side"""
+        if not hasattr(self, "_jumps"):
+            self._jumps = [e for v in self.model.variables(deep=True) for e in v.rhs().walk() if isinstance(e, RELS + JUMPS)]
+        near = lambda x: abs(x - round(x)) <= 1e-9 * max(1.0, abs(x))  # noqa: E731
+        for e in self._jumps if only is None else [x for x in only.walk() if isinstance(x, RELS + JUMPS)]:
+            try:
+                a = float(e[0].eval(vals))
+                if isinstance(e, (myokit.Floor, myokit.Ceil)):
+                    if near(a):
+                        return True
+                    continue
+                b = float(e[1].eval(vals))
+                if isinstance(e, RELS):
+                    plain = all(isinstance(x, (myokit.Name, myokit.Number)) or (isinstance(x, myokit.PrefixMinus) and isinstance(x[0], myokit.Number)) for x in e)
+                    if abs(a - b) <= 1e-9 * max(abs(a), abs(b)) and not (a == b and plain):
+                        return True
+                elif near(a / b):
+                    return True
+            except Exception:  # noqa: BLE001
+                continue
+        return False
 
 
-OP_PRIORITY = [("quotient", myokit.Quotient), ("remainder", myokit.Remainder), ("log10", myokit.Log10), ("ceil", myokit.Ceil), ("floor", myokit.Floor),
-               ("not", myokit.Not), ("and", myokit.And), ("or", myokit.Or), ("eq", myokit.Equal), ("ne", myokit.NotEqual), ("ge", myokit.MoreEqual),
-               ("le", myokit.LessEqual), ("piecewise", myokit.Piecewise), ("if", myokit.If), ("gt", myokit.More), ("lt", myokit.Less), ("abs", myokit.Abs),
+RELS = (myokit.Equal, myokit.NotEqual, myokit.More, myokit.Less, myokit.MoreEqual, myokit.LessEqual)
+JUMPS = (myokit.Floor, myokit.Ceil, myokit.Quotient, myokit.Remainder)
+OP_PRIORITY = [("quotient", myokit.Quotient), ("remainder", myokit.Remainder), ("log10", myokit.Log10), ("log-base", "log2"), ("ceil", myokit.Ceil),
+               ("floor", myokit.Floor), ("eq", myokit.Equal), ("ne", myokit.NotEqual), ("ge", myokit.MoreEqual), ("le", myokit.LessEqual),
+               ("not", myokit.Not), ("and", myokit.And), ("or", myokit.Or), ("piecewise", myokit.Piecewise), ("if", myokit.If), ("gt", myokit.More), ("lt", myokit.Less), ("abs", myokit.Abs),
                ("sqrt", myokit.Sqrt), ("power", myokit.Power), ("tan", myokit.Tan), ("asin", myokit.ASin), ("acos", myokit.ACos), ("atan", myokit.ATan),
                ("sin", myokit.Sin), ("cos", myokit.Cos), ("exp", myokit.Exp), ("log", myokit.Log), ("prefix-minus", myokit.PrefixMinus),
                ("prefix-plus", myokit.PrefixPlus), ("divide", myokit.Divide), ("minus", myokit.Minus), ("times", myokit.Multiply), ("plus", myokit.Plus)]
+
+
+def degenerate(model):
+    """a comparison without a variable or a conditional with identical branches: those are property C01's known
+    degenerate conditionals, kept out of C15's generated models and shrink candidates"""
+    for v in model.variables(deep=True):
+        for e in v.rhs().walk():
+            if isinstance(e, (myokit.Equal, myokit.NotEqual, myokit.More, myokit.Less, myokit.MoreEqual, myokit.LessEqual)) and e.is_constant():
+                return True
+            if isinstance(e, myokit.If):
+                e = e.piecewise()
+            if isinstance(e, myokit.Piecewise):
+                try:  # branches that SymPy's automatic evaluation makes identical (x * h and h * x, 0.75 - k + k and 0.75)
+                    import sympy as sp
+
+                    sy = [myokit.formats.sympy.write(p) for p in e.pieces()]
+                    same = any(sp.expand(a - b) == 0 for i, a in enumerate(sy) for b in sy[:i])
+                except Exception:  # noqa: BLE001
+                    codes = [p.code() for p in e.pieces()]
+                    same = len(set(codes)) < len(codes)
+                if same:
+                    return True
+                mine = {r.var() for c in e.conditions() for r in c.references()}
+                for p in e.pieces():  # a conditional nested in a branch and testing the same variable: unreachable branches
+                    for q in p.walk():
+                        if isinstance(q, (myokit.If, myokit.Piecewise)):
+                            cs = [q.condition()] if isinstance(q, myokit.If) else list(q.conditions())
+                            if mine & {r.var() for c in cs for r in c.references()}:
+                                return True
+    return False
 
 
 def closure(variables):
@@ -210,10 +303,11 @@ def name_construct(ref: Ref, v):
     return f"{where}-{'reserved' if v.uname() in gm.reserved_names else 'renamed'}-name"
 
 
-def construct(ref: Ref, variables):
-    """names the construct the derivatives of `variables` depend on: a nested / renamed name first (the import
-    has to substitute it), then the time variable, then the highest-priority Myokit operator"""
-    cl = closure(variables)
+def construct(ref: Ref, variables, deep=True):
+    """names the construct behind a wrong value of `variables`: a nested variable whose gotranx name differs from the
+    name written in the expressions (the import has to substitute it), then the time variable, then the highest-priority
+    Myokit operator; deep: over the whole dependency closure, else over the expressions of `variables` alone"""
+    cl = closure(variables) if deep else list(variables) + [r.var() for v in variables for r in v.rhs().references()]
     kinds = sorted({k for k in (name_construct(ref, v) for v in cl if v is not ref.tvar) if k and k.startswith("nested")})
     if kinds:
         return kinds[0]
@@ -222,15 +316,34 @@ def construct(ref: Ref, variables):
     if ref.tvar is not None and ref.tvar in cl and ref.tvar.uname() != "time":
         return "time-variable-renamed"
     types = set()
-    for v in cl:
-        for e in v.rhs().walk():
-            types.add(type(e))
-            if isinstance(e, myokit.Log) and len(e) == 2:
-                return "log-base"
+    neg = {myokit.Less: myokit.MoreEqual, myokit.More: myokit.LessEqual, myokit.LessEqual: myokit.More, myokit.MoreEqual: myokit.Less,
+           myokit.Equal: myokit.NotEqual, myokit.NotEqual: myokit.Equal}
+    for v in (cl if deep else variables):
+        for e in v.rhs().walk():  # not (a < b) is a >= b for SymPy
+            types.add("log2" if isinstance(e, myokit.Log) and len(e) == 2 else neg[type(e[0])] if isinstance(e, myokit.Not) and type(e[0]) in neg else type(e))
     for k, t in OP_PRIORITY:
         if t in types:
             return k
     return "plain"
+
+
+def culprit(ref: Ref, mod, vals, scale, t, s, p0):
+    """the Myokit variables whose value in the generated module differs while everything they refer to agrees
+    (compared through the generated monitor_values); [] when that cannot be told"""
+    try:
+        with cm.quiet():
+            mon = np.asarray(mod["monitor_values"](t, s, p0), dtype=float)
+        got = {}
+        for v in ref.vars:
+            n = "d" + ref.name[v] + "_dt" if v.is_state() else ref.name[v]
+            if n in mod["monitor"]:
+                got[v] = mon[mod["monitor_index"](n)]
+            elif n in mod["parameter"]:
+                got[v] = p0[mod["parameter_index"](n)]
+        bad = [v for v in got if not cm.close(got[v], float(vals[v.lhs()]), 1e-7, 1e-12 * scale)]
+        return [v for v in bad if not any(r.var() in bad for r in v.rhs().references() if not r.var().is_state())]
+    except Exception:  # noqa: BLE001
+        return []
 
 
 # --------------------------------------------------------------------------------------
@@ -256,6 +369,17 @@ def fval(x):
     return float("nan")
 
 
+def fval_double(expr):
+    """value of a closed SymPy expression in double arithmetic (SymPy's own Float arithmetic leaves 1e-125 residues)"""
+    import sympy as sp
+
+    try:
+        with np.errstate(all="ignore"):
+            return float(sp.lambdify([], expr, "math")())
+    except Exception:  # noqa: BLE001
+        return float("nan")
+
+
 def check(case):
     res = cm.new_result()
     try:
@@ -276,10 +400,21 @@ def check_myokit(case, res, d):
         path = os.path.join(d, "m.mmt")
         with open(path, "w") as f:
             f.write(text)
+    # the import runs first so that the reference can be built on the protocol embedding Myokit made for it
+    imp_exc = ode = None
+    with Embedding() as emb:
+        try:
+            with cm.quiet():
+                ode = gm.mmt_to_gotran(path) if kind == "mmt" else gm.cellml_to_gotran(path)
+        except Exception as e:  # noqa: BLE001
+            imp_exc = e
     try:
-        ref = Ref(path, kind)
+        ref = Ref(path, kind, emb.got)
     except Exception as e:  # noqa: BLE001 - Myokit itself rejects the file: the generator's fault
         res["errors"].append(f"myokit rejects {'generated model ' + str({k: case[k] for k in ('micro', 'gseed') if k in case}) if text else path}: {cm.exc_name(e)}: {cm.short(e)}")
+        return res
+    if text is not None and degenerate(ref.model):
+        cm.note(res, "model-with-degenerate-conditional-skipped")
         return res
     base_inp = {"mmt": text} if text is not None else {"repo": path}
     res["sample"] = dict(base_inp, npts=case.get("npts", 4), pseed=case.get("pseed", 0))
@@ -293,15 +428,15 @@ def check_myokit(case, res, d):
         res["failures"].append(f)
 
     # ---- 1. import ----------------------------------------------------------------------------
+    cm.note(res, "models")
     res["evals"] += 1
-    try:
-        with cm.quiet():
-            ode = gm.mmt_to_gotran(path) if kind == "mmt" else gm.cellml_to_gotran(path)
-    except Exception as e:  # noqa: BLE001
+    if imp_exc is not None:
+        e = imp_exc
         dup = sorted(n for n in set(ref.name.values()) if list(ref.name.values()).count(n) > 1)
         add(f"C15:import-raises:{cm.exc_site(e)}", f"{kind}_to_gotran raises for a model that Myokit loads and validates", base_inp, "a gotranx ODE",
             cm.exc_name(e), cm.short(e) + (f" | Myokit variables mapped to the same gotranx name: {dup}" if dup else ""))
         return res
+    cm.note(res, "models-imported")
     # ---- 2. states / constants under their unique names -------------------------------------------
     nm = ref.name
     dup = sorted(n for n in set(nm.values()) if list(nm.values()).count(n) > 1)
@@ -326,7 +461,7 @@ def check_myokit(case, res, d):
         if n in gpar:
             got = gpar[n]
         elif not is_num and n in gint and not gint[n].expr.free_symbols:
-            got = fval(gint[n].expr)
+            got = fval_double(gint[n].expr)
             cm.note(res, "literal-constant-imported-as-intermediate")
             if math.isnan(got):  # the harness cannot evaluate the unevaluated SymPy expression: covered by the rhs comparison
                 cm.note(res, "literal-constant-not-evaluable")
@@ -334,7 +469,7 @@ def check_myokit(case, res, d):
         else:
             add("C15:constant-missing", f"Myokit constant {v.qname()} = {v.rhs().code()} is no gotranx parameter `{n}`", base_inp, n, sorted(gpar))
             continue
-        if not cm.close(got, val, 1e-14, 0):
+        if not cm.close(got, val, 1e-14 if is_num else 1e-9, 0 if is_num else 1e-9):
             add("C15:constant-value-changed", f"value of constant {v.qname()} differs", base_inp, val, got)
     extra = sorted(set(gpar) - cnames)
     if extra:
@@ -353,7 +488,11 @@ def check_myokit(case, res, d):
     if any(f["signature"].startswith("C15:rhs-") for f in res["failures"][nf:]):
         mod = None  # exporting a reloaded model that is already wrong tells nothing new
     # ---- 4. back to Myokit ----------------------------------------------------------------------------
-    to_myokit(res, ode, "imported", base_inp, add, ref=ref, units_of_ref=True, pts=pts[:2])
+    defined = {x.name for x in list(ode.states) + list(ode.parameters) + list(ode.intermediates)} | {"t", "time"}
+    if {sym.name for a in list(ode.state_derivatives) + list(ode.intermediates) for sym in a.expr.free_symbols} - defined:
+        cm.note(res, "export-of-imported-model-skipped-because-the-import-left-undefined-names")  # reported by the reload / rhs stage
+    else:
+        to_myokit(res, ode, "imported", base_inp, add, ref=ref, units_of_ref=True, pts=pts[:2])
     if mod is not None:
         to_myokit(res, mod[0], "imported+reloaded", base_inp, add, ref=ref, pts=pts[:2])
     return res
@@ -381,15 +520,17 @@ def reload_and_compare(case, res, ref, ode, d, base_inp, pts, key, add):
             sub = ":" + (ks[0] if ks else "other")
             detail = f" | `{m.group(1)}` is the local name of {[v.qname() + ' -> ' + nm[v] for v in vs]}"
         m = re.search(r"Previous tokens: \[Token\('VARIABLE', '(\w+)'\)\]", str(e))
-        if m and not sub:
-            sub = ":after-" + m.group(1)
+        if m and not sub:  # re / im / cosh: SymPy rewrote abs(exp(z)) for the complex symbols of the imported model
+            sub = ":after-" + ("complex-rewrite" if m.group(1) in COMPLEX else m.group(1))
         sig = f"C15:reload-raises:{cm.exc_site(e)}"
-        add(sig + sub, "the .ode file saved from the imported model cannot be loaded", base_inp, "a loadable .ode file", cm.exc_name(e), cm.short(e) + detail, base=sig)
+        add(sig + sub, "the .ode file saved from the imported model cannot be loaded", base_inp, "a loadable .ode file", cm.exc_name(e), cm.short(e) + detail)
         return None
     try:
         code = cm.py_code(ode2)
     except Exception as e:  # noqa: BLE001
-        add(f"C15:codegen-raises:{cm.exc_site(e)}", "numpy code generation raises for the reloaded model", base_inp, "code", cm.exc_name(e), cm.short(e))
+        m = re.search(r"Unsupported by .*?: (\w+)", str(e))
+        sub = ":" + ("complex-rewrite" if m.group(1) in COMPLEX else m.group(1)) if m else ""
+        add(f"C15:codegen-raises:{cm.exc_site(e)}{sub}", "numpy code generation raises for the reloaded model", base_inp, "code", cm.exc_name(e), cm.short(e))
         return None
     try:
         mod = cm.exec_py(code)
@@ -411,11 +552,13 @@ def reload_and_compare(case, res, ref, ode, d, base_inp, pts, key, add):
             if not cm.close(g, val, 1e-14, 0):
                 add("C15:constant-value-changed:after-reload", f"value of constant {v.qname()} differs after save + load", base_inp, val, float(g))
     nontriv = ref.nontrivial_model()
+    cm.note(res, "models-reloaded-and-compiled")
     for pt in pts:
-        want, scale = ref.eval(pt)
-        if want is None:
-            cm.note(res, "points-skipped-myokit-not-finite")
+        ev = ref.eval(pt)
+        if ev is None:
+            cm.note(res, "points-skipped-myokit-not-finite-or-at-a-discontinuity")
             continue
+        want, scale, vals = ev
         res["evals"] += 1
         inp = dict(base_inp, points=[pt])
         if nontriv and any(w != 0 for w in want.values()):
@@ -435,12 +578,16 @@ def reload_and_compare(case, res, ref, ode, d, base_inp, pts, key, add):
         bad = {v: float(got[mod["state_index"](nm[v])]) for v in ref.states
                if not cm.close(got[mod["state_index"](nm[v])], want[v.qname()], 1e-7, 1e-12 * scale)}
         if bad:
-            kind = construct(ref, list(bad))
+            first = culprit(ref, mod, vals, scale, pt["t"], s, np.array(p0))
+            kind = construct(ref, first, deep=False) if first else construct(ref, list(bad))
             v0 = sorted(bad, key=lambda v: v.qname())[0]
+            where = f"first wrong variable(s): {[v.qname() + ' = ' + v.rhs().code()[:100] for v in first]} | " if first else ""
             add(f"C15:rhs-differs:{kind}", f"d{nm[v0]}_dt of the reloaded model differs from Myokit's dot({v0.qname()}) = {v0.rhs().code()[:120]}", inp,
                 {v.qname(): want[v.qname()] for v in bad}, {v.qname(): g for v, g in bad.items()},
-                "generated: " + "; ".join(gen_lines(code, closure(list(bad)), nm))[:900], base="C15:rhs-differs")
+                where + "generated: " + "; ".join(gen_lines(code, first or closure(list(bad)), nm))[:900])
             break
+    else:
+        cm.note(res, "models-rhs-equal-at-all-points")
     return ode2, mod
 
 
@@ -453,24 +600,27 @@ def gen_lines(code, variables, nm):
     return out
 
 
-def myokit_unit(u):
-    return None if u is None else myokit.parse_unit(u.replace("**", "^"))
+COMPLEX = ("re", "im", "cosh", "sinh", "tanh", "arg", "sign", "conjugate", "Abs", "atan2")
 
 
 def keyerror_kind(ode, k, ref):
-    """why the SymPy reader of gotran_to_myokit cannot resolve name k"""
+    """why the SymPy reader of gotran_to_myokit cannot resolve a name.  Which unresolvable name is met first depends on
+    set iteration order, so the kind is the highest-ranking one over *all* names of the model's expressions (k included)"""
     import sympy as sp
 
-    if ref is not None:
-        ks = sorted({c for c in (name_construct(ref, v) for v in ref.vars if v.name() == k) if c})
-        if ks:
-            return ks[0]
-    for a in list(ode.state_derivatives) + list(ode.intermediates):
-        for sym in a.expr.free_symbols:
-            if sym.name == k and sym != sp.Symbol(k):
-                return "symbol-assumptions"
     defined = {x.name for x in list(ode.states) + list(ode.parameters) + list(ode.intermediates)}
-    return "defined-symbol" if k in defined else "time-symbol" if k == "t" else "undefined-symbol"
+    syms = {sym for a in list(ode.state_derivatives) + list(ode.intermediates) for sym in a.expr.free_symbols}
+    kinds = set()
+    for n in {k} | {sym.name for sym in syms}:
+        if ref is not None and n not in defined and any((name_construct(ref, v) or "").startswith("nested") for v in ref.vars if v.name() == n):
+            kinds.add("dangling-nested-name")  # left behind by the import
+        elif any(sym.name == n and sym != sp.Symbol(n) for sym in syms) and n in defined:
+            kinds.add("symbol-assumptions")  # defined, but the expression holds Symbol(n, real=True) != Symbol(n)
+        elif n == "t" and n not in defined:
+            kinds.add("time-symbol")
+        elif n == k:
+            kinds.add("defined-symbol" if n in defined else "undefined-symbol")
+    return [x for x in ("dangling-nested-name", "symbol-assumptions", "time-symbol", "defined-symbol", "undefined-symbol") if x in kinds][0]
 
 
 def to_myokit(res, ode, label, base_inp, add, ref=None, units_of_ref=False, expect=None, pts=()):
@@ -484,17 +634,24 @@ def to_myokit(res, ode, label, base_inp, add, ref=None, units_of_ref=False, expe
             mk = gm.gotran_to_myokit(ode)
             mk.validate()
     except Exception as e:  # noqa: BLE001
+        for a in (list(ode.states) + list(ode.parameters) + list(ode.intermediates)) if isinstance(e, myokit.ParseError) else []:
+            try:
+                myokit.parse_unit((a.unit_str or "1").replace("**", "^"))
+            except Exception:  # noqa: BLE001 - a unit Myokit cannot spell: outside the property
+                cm.note(res, "model-with-a-unit-myokit-cannot-parse-skipped")
+                return
         sub = ""
         if isinstance(e, myokit.InvalidNameError):
             names = [c.name for c in ode.components]
             sub = ":unnamed-component" if "" in names else ":component-name" if any(not re.fullmatch(r"[a-zA-Z]\w*", n) for n in names) else ":variable-name"
+        elif isinstance(e, ValueError) and "Unsupported type" in str(e):
+            typ = re.sub(r"[^A-Za-z0-9_]", "", str(e).split("Unsupported type:")[1].replace("<class", "").split(".")[-1])
+            sub = ":unsupported-" + ("complex-rewrite" if typ in COMPLEX else typ)
         elif isinstance(e, KeyError) and e.args:
             sub = ":" + keyerror_kind(ode, str(e.args[0]), ref if units_of_ref else None)
-            if sub[1:].startswith(("nested", "toplevel")) and any(sub in f["signature"] for f in res["failures"]):
-                cm.note(res, "export-of-imported-model-hits-the-dangling-name-already-reported")
-                return
         add(f"C15:to-myokit-raises:{cm.exc_site(e)}{sub}", f"gotran_to_myokit raises for the {label} model", inp, "a Myokit model", cm.exc_name(e), cm.short(e))
         return
+    cm.note(res, f"exports-ok:{label}")
     byname = {}
     tv = mk.time()
     for v in mk.variables(deep=True):
@@ -535,10 +692,10 @@ def to_myokit(res, ode, label, base_inp, add, ref=None, units_of_ref=False, expe
     mst = list(mk.states())
     for pt in pts:
         if ref is not None:
-            want, scale = ref.eval(pt)
-            if want is None:
+            ev = ref.eval(pt)
+            if ev is None:
                 continue
-            want = {ref.name[v]: want[v.qname()] for v in ref.states}
+            want, scale = {ref.name[v]: ev[0][v.qname()] for v in ref.states}, ev[1]
             vals = {ref.name[v]: pt["states"][v.qname()] for v in ref.states}
         else:
             e = expect(pt)
@@ -575,7 +732,10 @@ def ode_text(case):
     named = k % 4 != 0  # 3 of 4 models: every object in a component whose name Myokit accepts
     o = mg.GenOpts(n_states=(1, 4), n_params=(1, 4), n_inter=(0, 5), n_comps=(1, 3) if named else (0, 2), features=tuple(ODE_FEATURES), depth=2,
                    min_comps_used=1 if named else 0, unused=False)
-    text = mg.gen_model(k, o).text
+    for i in range(6):  # no And / Or nested in itself: SymPy flattens it and Myokit's own SymPy reader takes two operands only
+        text = mg.gen_model(k + i * 10**7, o).text
+        if not any(ln.count("And(") > 1 or ln.count("Or(") > 1 for ln in text.splitlines()):
+            break
     return text.replace('"I Na"', '"I_Na"') if named else text
 
 
@@ -619,10 +779,8 @@ def reductions(text):
     model, protocol, _ = myokit.parse(text.splitlines())
 
     def render(m, p):
-        for v in m.variables(deep=True):  # never turn a condition into a constant one (C01's degenerate conditionals)
-            for e in v.rhs().walk():
-                if isinstance(e, (myokit.Equal, myokit.NotEqual, myokit.More, myokit.Less, myokit.MoreEqual, myokit.LessEqual)) and e.is_constant():
-                    raise ValueError("degenerate")
+        if degenerate(m):
+            raise ValueError("degenerate")
         return m.code() + ("\n" + p.code() if p is not None else "")
 
     if protocol is not None:
